@@ -14,7 +14,7 @@ for k in ('LBZIP2', 'BZIP2', 'BZIP'):
 
 def _common_opts(stdin_path=None, policy='P0', renv=None, wenv=None, sigs=None, spurious=0,
                  rfrag=0, wfrag=0, ign_sigpipe=False, setenv=None, heap_limit=0, timeout=None,
-                 argv0=None, chdir=None, fork=False, horizon=0, env_all_fds=False):
+                 argv0=None, chdir=None, fork=False, horizon=0, env_all_fds=False, cpu_base=0):
     o = []
     if stdin_path: o += ['--stdin', stdin_path]
     o += ['--policy', policy]
@@ -34,6 +34,7 @@ def _common_opts(stdin_path=None, policy='P0', renv=None, wenv=None, sigs=None, 
     if chdir: o += ['--chdir', chdir]
     if horizon: o += ['--horizon', str(horizon)]
     if fork: o += ['--fork']
+    if cpu_base: o += ['--cpu-base', str(cpu_base)]
     return o
 
 def run(variant, args, dev=None, save_stdout=None, save_stderr=None, cps=False, **kw):
